@@ -88,6 +88,18 @@ def run(ctx):
         r.fail("C03.effect", "index-freshness:" + f.key, "a rule's fix can land on tokens it did not select: " + f.message, f.loc, path=f.path)
     if not scratch.findings:
         r.ok("C03.effect", "index-freshness", "every fix that can shift token positions is followed by an index rebuild (remap), so later rules select the tokens they name")
+    # "rules configured fixable: false / disable: true / a warning severity never change the file" also for settings
+    # given per file: they have to reach the rule, i.e. the per-file entry has to be found (decided under C12.filelevel)
+    from . import c12 as _c12
+
+    scratch12 = Result("C12")
+    _c12._file_level_index(scratch12, p)
+    _c12._single_key_entries(scratch12, p)
+    _c12._lookup_name(scratch12, p)
+    for f in scratch12.findings:
+        r.fail("C03.gating", "per-file-settings:" + f.key, "a rule switched off (disable / fixable / warning severity) for one file can still fix it: " + f.message, f.loc)
+    if not scratch12.findings:
+        r.ok("C03.gating", "per-file-settings", "per-file disable / fixable / severity settings are found by name and position (C12.filelevel clauses hold), so they gate the fix like rule-level ones")
     return r
 
 
